@@ -5,17 +5,21 @@ import json, os, sys
 HERE = os.path.dirname(os.path.abspath(__file__))
 sys.path.insert(0, HERE)
 import kani_run
-names = sys.argv[1:]
+args = sys.argv[1:]
+timeout = 600
+if args and args[0] == "--timeout":
+    timeout = int(args[1]); args = args[2:]
+names = args
 reg = kani_run.registry()
 names = [n for n in names if n in reg]
-r = kani_run.run_kani(names, "/repo", os.path.join(kani_run.ROOT, ".work", "measure"), timeout_per=600)
+r = kani_run.run_kani(names, "/repo", os.path.join(kani_run.ROOT, ".work", "measure"), timeout_per=timeout)
 p = os.path.join(kani_run.ROOT, "kani", "timings.json")
 tim = json.load(open(p))
 data = r["data"] or {}
 for x in data.get("verification_results", {}).get("results", []):
     n = x["harness_id"].split("::")[-1]
     ms = x.get("duration_ms") or x.get("time_ms") or int(1000 * float(x.get("duration_s", 0) or 0))
-    tim[n] = [x.get("status"), ms]
+    tim[n] = [x.get("status"), ms] if x.get("status") == "Success" else [x.get("status"), ms, "timeout %ds" % timeout]
     print(n, tim[n])
 json.dump(tim, open(p, "w"), indent=0)
 if not data:
